@@ -1,13 +1,17 @@
 #!/bin/bash
-# usage: tools/try_mutant.sh <patch.diff> <ID> [tier]   -- applies patch to /repo, runs check, reverts
+# usage: tools/try_mutant.sh <patch.diff> <ID> [tier]
+# Applies the patch to a private scratch worktree of /repo's HEAD (never to /repo itself), runs the check against it
+# (VERIF_REPO), prints the verdict lines and removes the worktree. Evidence of the trial goes to /tmp, not to /verif/evidence.
 set -u
 P=$(realpath "$1"); ID=$2; TIER=${3:-quick}
-cd /repo || exit 2
-if ! git diff --quiet; then echo "repo dirty"; exit 2; fi
-if ! git apply --check "$P" 2>/dev/null; then echo "PATCH DOES NOT APPLY: $P"; exit 3; fi
-git apply "$P"
-cd /verif && ./check "$ID" --tier "$TIER" 2>/tmp/try_mutant.err | grep -E "^(VIOLATION|KNOWN|HELD|INCONCLUSIVE)" | cut -c1-300
+WT=/tmp/wt/tm.$$
+mkdir -p /tmp/wt
+git -C /repo worktree add --detach "$WT" HEAD >/dev/null 2>&1 || exit 2
+trap 'git -C /repo worktree remove --force "$WT" >/dev/null 2>&1' EXIT
+if ! git -C "$WT" apply --check "$P" 2>/dev/null; then echo "PATCH DOES NOT APPLY: $P"; exit 3; fi
+git -C "$WT" apply "$P"
+cd "$(dirname "$0")/.." && VERIF_REPO="$WT" VERIF_EVIDENCE_DIR=/tmp/mutant_evidence ./check "$ID" --tier "$TIER" 2>/tmp/try_mutant.$$.err | grep -E "^(VIOLATION|KNOWN|HELD|INCONCLUSIVE)" | cut -c1-300
 rc=${PIPESTATUS[0]}
-git -C /repo checkout -- .
+rm -f /tmp/try_mutant.$$.err
 echo "exit=$rc"
 exit $rc
